@@ -74,6 +74,181 @@ def leaks(text, assign_re, restore_re):
     return False
 
 
+
+# ------------------------------------------------------------------------------------------------ depth budget analysis
+_TOK = re.compile(r"\s*(?:(\bif\b|\belse\b|\bwhile\b|\bfor\b|\bdo\b|\bswitch\b|\breturn\b|\bgoto\b|\bbreak\b|\bcontinue\b|\bcase\b|\bdefault\b)|([{}();:])|([^\s{}();:]+))")
+
+
+def _tokens(text):
+    out, i = [], 0
+    while i < len(text):
+        m = _TOK.match(text, i)
+        if not m or m.end() == i:
+            i += 1
+            continue
+        out.append(m.group(1) or m.group(2) or m.group(3))
+        i = m.end()
+    return out
+
+
+class _Bal:
+    """abstract interpretation of one `case` body: the set of possible values of (#down1 - #up1) at every exit"""
+
+    def __init__(self, toks):
+        self.t, self.i = toks, 0
+        self.exits = []          # (kind, balance)
+        self.problems = []
+
+    def peek(self):
+        return self.t[self.i] if self.i < len(self.t) else None
+
+    def take(self):
+        x = self.t[self.i]
+        self.i += 1
+        return x
+
+    def parens(self):
+        """consume a balanced ( ... ), return its tokens"""
+        assert self.take() == "("
+        depth, out = 1, []
+        while depth:
+            x = self.take()
+            if x == "(":
+                depth += 1
+            elif x == ")":
+                depth -= 1
+                if depth == 0:
+                    break
+            out.append(x)
+        return out
+
+    @staticmethod
+    def delta(toks):
+        return sum(1 for x in toks if x == "down1") - sum(1 for x in toks if x == "up1")
+
+    def stmt(self, cur, brk, cont):
+        """cur: set of balances on entry -> set of balances on normal exit; brk/cont: lists collecting break / continue sets"""
+        x = self.peek()
+        if x == "{":
+            self.take()
+            while self.peek() != "}":
+                cur = self.stmt(cur, brk, cont)
+            self.take()
+            return cur
+        if x == "if":
+            self.take()
+            cur = {b + self.delta(self.parens()) for b in cur}
+            a = self.stmt(set(cur), brk, cont)
+            if self.peek() == "else":
+                self.take()
+                b = self.stmt(set(cur), brk, cont)
+                return a | b
+            return a | cur
+        if x in ("while", "for"):
+            self.take()
+            self.parens()
+            start = self.i
+            seen = set(cur)
+            mybrk = []
+            for _ in range(4):
+                self.i = start
+                b2, c2 = [], []
+                out = self.stmt(set(seen), b2, c2)
+                back = out.union(*c2) if c2 else out
+                mybrk = b2
+                if back <= seen:
+                    break
+                seen |= back
+            else:
+                self.problems.append("loop body is not depth-neutral")
+            res = set(seen)
+            for b in mybrk:
+                res |= b
+            return res
+        if x == "do":
+            self.take()
+            b2, c2 = [], []
+            out = self.stmt(set(cur), b2, c2)
+            assert self.take() == "while"
+            self.parens()
+            if self.peek() == ";":
+                self.take()
+            if not (out <= cur):
+                self.problems.append("do-loop body is not depth-neutral")
+            res = out
+            for b in b2:
+                res |= b
+            return res
+        if x == "switch":
+            self.take()
+            self.parens()
+            assert self.take() == "{"
+            entry, b2 = set(cur), []
+            cur = set()
+            while self.peek() != "}":
+                if self.peek() in ("case", "default"):
+                    while self.take() != ":":
+                        pass
+                    cur = cur | entry
+                    continue
+                cur = self.stmt(cur, b2, cont)
+            self.take()
+            res = cur
+            for b in b2:
+                res |= b
+            return res | entry
+        if x == "return":
+            toks = []
+            while self.peek() != ";":
+                toks.append(self.take())
+            self.take()
+            d = self.delta(toks)
+            self.exits += [("return", b + d) for b in cur]
+            return set()
+        if x == "goto":
+            self.take()
+            self.take()
+            self.take()
+            self.exits += [("tail", b) for b in cur]
+            return set()
+        if x == "break":
+            self.take()
+            self.take()
+            brk.append(set(cur))
+            return set()
+        if x == "continue":
+            self.take()
+            self.take()
+            cont.append(set(cur))
+            return set()
+        # simple statement up to ';' (balanced parens inside)
+        toks, depth = [], 0
+        while True:
+            y = self.take()
+            if y == "(":
+                depth += 1
+            elif y == ")":
+                depth -= 1
+            elif y == ";" and depth == 0:
+                break
+            toks.append(y)
+        d = self.delta(toks)
+        return {b + d for b in cur}
+
+
+def depth_balance(case_text):
+    """(sorted exit balances, problems, #down1, #up1) of one opcode case of peg_rule"""
+    toks = _tokens(case_text)
+    a = _Bal(["{"] + toks + ["}"])
+    try:
+        end = a.stmt({0}, [], [])
+    except (AssertionError, IndexError) as e:
+        raise ExtractError("depth analysis cannot parse case: %r" % (e,))
+    if end:
+        a.exits += [("fallthrough", b) for b in end]
+    return (sorted(set(b for _, b in a.exits)), a.problems, sum(1 for x in toks if x == "down1"), sum(1 for x in toks if x == "up1"))
+
+
 def extract(tree):
     hdr = csrc.strip_comments(csrc.read(tree, "src/include/janet.h"))
     ops = csrc.enum_values(hdr, "RULE_LITERAL")
@@ -133,12 +308,22 @@ def extract(tree):
     missing = [o for o in ops if o not in seen]
     if missing:
         raise ExtractError("peg_rule has no case for %s" % missing)
+    depth_exits, depth_bad, depth_counts = {}, [], {}
+    for labels, text in split_cases(body):
+        if labels == ("default",):
+            continue
+        ex, probs, nd, nu = depth_balance(text)
+        for lab in labels:
+            depth_exits[lab], depth_counts[lab] = ex, (nd, nu)
+            if ex != [0] or probs:
+                depth_bad.append(lab)
     numcase = [t for labels, t in split_cases(body) if "RULE_CAPTURE_NUM" in labels]
     if len(numcase) != 1 or "janet_scan_number_base" not in numcase[0]:
         raise ExtractError("RULE_CAPTURE_NUM case not recognised")
     num_raw = bool(re.search(r"janet_buffer_push_bytes\s*\(\s*s->scratch\s*,\s*text\b", numcase[0]))
     return dict(ops=ops, guard=guard, maxw=maxw, sizes=sizes, rulerefs=rulerefs, constrefs=constrefs, hashes=hashes,
-                mode_leaks=mode_leaks, window_leaks=window_leaks, num_raw=num_raw)
+                mode_leaks=mode_leaks, window_leaks=window_leaks, num_raw=num_raw,
+                depth_exits=depth_exits, depth_bad=depth_bad, depth_counts=depth_counts)
 
 
 def render(tree):
@@ -162,6 +347,13 @@ def render(tree):
     out.append("abbrev lenprefixLeak : Bool := %s" % ("true" if "RULE_LENPREFIX" in x["mode_leaks"] else "false"))
     out.append("\n/-- RULE_CAPTURE_NUM appends the matched text (not the number) to the accumulation buffer when !has_backref -/")
     out.append("abbrev captureNumRaw : Bool := %s" % ("true" if x["num_raw"] else "false"))
+    out.append("\n/-- per opcode (in enum order): the possible values of #down1 - #up1 at the exits (return / goto tail) of its case in peg_rule,")
+    out.append("    from a path-sensitive walk over the statements of the case (loops must be neutral) -/")
+    out.append("def depthExits : List (List Int) := [" + ", ".join("[" + ", ".join(str(b) for b in x["depth_exits"][k]) + "]" for k in ops) + "]")
+    out.append("/-- textual (#down1, #up1) per opcode case -/")
+    out.append("def depthCounts : List (Nat × Nat) := [" + ", ".join("(%d, %d)" % x["depth_counts"][k] for k in ops) + "]")
+    out.append("/-- opcode cases with an exit where down1/up1 are not balanced -/")
+    out.append("def depthUnbalanced : List String := [" + ", ".join('"%s"' % s for s in x["depth_bad"]) + "]")
     out.append("\n/-- opcode cases of peg_rule that can return while `s->text_end` is still narrowed -/")
     out.append("def windowLeaks : List String := [" + ", ".join('"%s"' % s for s in x["window_leaks"]) + "]")
     out.append("\nend JanetModel.Gen.Peg\n")
